@@ -204,6 +204,71 @@ func c16Replay(c c16Case, in []byte, body io.Reader) (string, string) {
 	return "", ""
 }
 
+func c16Overlap(alg string) (string, string) {
+	cl, err := c16Client(alg, 0)
+	if err != nil {
+		return "", ""
+	}
+	outer, inner := c16Body("pattern", 6000), c16Body("noise", 5000)
+	var gotOuter, gotInner, gotWarm []byte
+	var errOuter, errInner error
+	var url string
+	h := http.HandlerFunc(func(w http.ResponseWriter, r *http.Request) {
+		defer r.Body.Close() // a well-behaved handler closes the body it was given
+		switch r.Header.Get("X-Role") {
+		case "outer":
+			head := make([]byte, 100)
+			n, e1 := io.ReadFull(r.Body, head)
+			req, _ := http.NewRequest(http.MethodPost, url, bytes.NewReader(inner))
+			req.Header.Set("X-Role", "inner")
+			if resp, e2 := cl.Do(req); e2 == nil {
+				resp.Body.Close()
+			} else {
+				errInner = e2
+			}
+			rest, e3 := io.ReadAll(r.Body)
+			gotOuter = append(head[:n], rest...)
+			if e1 != nil {
+				errOuter = e1
+			} else {
+				errOuter = e3
+			}
+		case "inner":
+			gotInner, errInner = io.ReadAll(r.Body)
+		default:
+			gotWarm, _ = io.ReadAll(r.Body)
+		}
+	})
+	sc := NewDefaultServerConfig()
+	sc.Endpoint = "localhost:0"
+	srv, err := sc.ToServer(context.Background(), componenttest.NewNopHost(), componenttest.NewNopTelemetrySettings(), h)
+	if err != nil {
+		return "", ""
+	}
+	ts := httptest.NewServer(srv.Handler)
+	defer ts.Close()
+	url = ts.URL
+	warm := c16Body("pattern", 300)
+	if resp, err := cl.Post(url, "application/octet-stream", bytes.NewReader(warm)); err == nil {
+		resp.Body.Close()
+	}
+	req, _ := http.NewRequest(http.MethodPost, url, bytes.NewReader(outer))
+	req.Header.Set("X-Role", "outer")
+	resp, err := cl.Do(req)
+	if err != nil {
+		return "client-error:overlap", err.Error()
+	}
+	resp.Body.Close()
+	if !bytes.Equal(gotWarm, warm) {
+		return "body-differs:overlap", fmt.Sprintf("the first (ordinary) request: handler read %d bytes, sent %d", len(gotWarm), len(warm))
+	}
+	if errOuter != nil || errInner != nil || !bytes.Equal(gotOuter, outer) || !bytes.Equal(gotInner, inner) {
+		return "overlapping-requests-read-each-others-body", fmt.Sprintf("two %s requests whose decodings overlap: the outer handler read %d bytes (sent %d, equal=%v, err=%v), the inner handler %d bytes (sent %d, equal=%v, err=%v)",
+			alg, len(gotOuter), len(outer), bytes.Equal(gotOuter, outer), errOuter, len(gotInner), len(inner), bytes.Equal(gotInner, inner), errInner)
+	}
+	return "", ""
+}
+
 func c16Run(e *c16Env, c c16Case) (string, string) {
 	in := c.Literal
 	if c.Kind != "literal" {
@@ -298,6 +363,14 @@ func TestVerif(t *testing.T) {
 		if err := json.Unmarshal(ctx.ReplayRaw, &rf); err != nil {
 			t.Fatal(err)
 		}
+		if rf.Replay.Kind == "overlap" {
+			sig, what := c16Overlap(rf.Replay.Alg)
+			t.Logf("%s %s", sig, what)
+			if sig != "" {
+				ctx.Violate(sig+":"+rf.Replay.Alg, what, rf.Replay)
+			}
+			return
+		}
 		e, err := c16NewEnv(rf.Replay.Limit, rf.Replay.Enabled)
 		if err != nil {
 			t.Fatal(err)
@@ -309,6 +382,24 @@ func TestVerif(t *testing.T) {
 			ctx.Violate(sig+":"+rf.Replay.Alg, what, rf.Replay)
 		}
 		return
+	}
+	// overlap sweep: two requests of one algorithm whose decodings overlap in time, made deterministic by NESTING - the
+	// outer handler reads a part of its body, sends the inner request to the same server and reads on; before that, one
+	// ordinary request whose handler closes its body (as handlers do). Whatever the server shares between requests
+	// (pooled decoders, buffers) must not let one request's body reach the other handler.
+	if ctx.Shard == 0 {
+		for _, alg := range []string{"gzip", "zlib", "deflate", "zstd", "snappy", "lz4"} {
+			ctx.R.Evals++
+			ctx.R.Trans += 3
+			ctx.Nontrivial(vr.Hash("overlap", alg))
+			if sig, what := c16Overlap(alg); sig != "" {
+				ctx.Violate(sig+":"+alg, what, c16Case{Alg: alg, Kind: "overlap"})
+				ctx.Outcome(sig)
+			} else {
+				ctx.R.Traces++
+				ctx.Outcome("overlap:each-handler-read-its-own-body")
+			}
+		}
 	}
 	algos := []string{"", "gzip", "zlib", "deflate", "zstd", "snappy", "lz4"}
 	levels := map[string][]int{"": {0}, "gzip": {0, -2, 1, 9}, "zlib": {0, 1, 9}, "deflate": {0, -2, 9}, "zstd": {0, 1, 3, 6, 11}, "snappy": {0}, "lz4": {0}}
